@@ -40,6 +40,7 @@ func (i *interpreter) resetThreads() {
 	i.threads = []*thread{{id: 0, resume: make(chan struct{}), started: true, vc: []uint32{1}}}
 	i.cur = i.threads[0]
 	i.killing = false
+	i.preempts = 0
 	i.pendingAbort = nil
 	i.hostDone = make(chan struct{}, 4096)
 	i.wgs, i.mus = nil, nil
@@ -158,7 +159,14 @@ func (i *interpreter) pickNext(self *thread) *thread {
 		return nil
 	}
 	if i.cfg.Schedules && !i.killing && len(rs) > 1 {
+		selfRunnable := self != nil && !self.blocked && !self.done
+		if selfRunnable && i.preempts >= i.cfg.MaxPreempt {
+			return self // preemption budget used: switch only when the running thread blocks
+		}
 		k := i.choose(len(rs), "sched")
+		if selfRunnable && rs[k] != self {
+			i.preempts++
+		}
 		return rs[k]
 	}
 	if self != nil && !self.blocked && !self.done {
